@@ -314,6 +314,10 @@ def run_one(ch, cfg):
             viol.append(("spec/device-contact-on-invalid:%s" % tag, desc))
         elif ref[0] == "reject":
             viol.append(("spec/no-verdict-for-invalid:%s" % tag, desc + " (%s)" % exc))
+        elif ref[0] == "may":
+            # a value the documents leave to the implementation gets one of the verdicts they allow
+            # for it (accepted, or refused with a listed code) - no verdict at all is none of them
+            viol.append(("spec/no-verdict-for-undecided:%s" % tag, desc + " (%s)" % exc))
     elif ref[0] == "accept":
         if observed[0] != "accepted":
             viol.append(("spec/rejected-valid:%s" % tag, desc))
